@@ -59,15 +59,25 @@ def r1_coverage(ctx, F, M):
 
 
 def control_handlers(F):
-    """control operation -> set of Operation variants the decoder passes to execute_op for it"""
+    """control operation -> set of Operation variants the decoder passes to execute_op for it (the decoder's Process methods
+    are interpreted as skeletons: private helpers of the same impl are inlined, every other callee returns an unknown)"""
+    from . import execmodel
     out = {}
+
     def ops_in(fn):
         s = set()
-        for bi, c, t in fn.calls():
-            if c.endswith("Process::execute_op"):
-                r = def_rvalue(fn, t["args"][1])
-                if r and r["k"] == "agg" and r.get("adt", "").endswith("operations::Operation"):
-                    s.add(r["variant"])
+        ps = execmodel.skeleton_paths(F, fn, r"^miden_processor::decoder::Process::", r"Process::execute_op$", lambda: execmodel.havoc_args(fn))
+        for p in ps:
+            if p["outcome"][0] == "unanalysable":
+                raise Unanalysable("%s: %s" % (fn.id, p["outcome"][1]))
+            if p["outcome"] != ("ok",):
+                continue
+            evs = [e for e in p["events"] if e[0] == "execute_op"]
+            if len(evs) != 1:
+                s.add("%d execute_op calls" % len(evs))
+                continue
+            o = evs[0][1][0]
+            s.add(o.variant if isinstance(o, Agg) else repr(o))
         return s
     W = {"Join": ["start_join_block"], "Split": ["start_split_block"], "Loop": ["start_loop_block"], "Call": ["start_call_block"],
          "SysCall": ["start_call_block"], "Dyn": ["start_dyn_block"], "Span": ["start_span_block"],
@@ -422,7 +432,10 @@ def r5_decoder_rows(ctx, F):
     def word(n):
         return Agg([Poly.var("%s%d" % (n, i)) for i in range(4)], "array")
 
-    fns = [f for f in F.find(r"^miden_processor::decoder::trace::DecoderTrace::append_\w+$") if f.name != "append_opcode"]
+    # the row-appending interface: append_* methods called from outside DecoderTrace (private helpers that fill a part of a
+    # row - append_opcode and the like - are covered through their callers)
+    fns = [f for f in F.find(r"^miden_processor::decoder::trace::DecoderTrace::append_\w+$")
+           if any(not c.startswith("miden_processor::decoder::trace::DecoderTrace::") for c in F.callers(f.id))]
     ctx.floor("append-methods", len(fns), 7)
     ops = opmodel.opcode_table(F)
     width = None
